@@ -378,6 +378,9 @@ func (d *Data) Set(id string, v interface{}) (ok bool, err error) {
 			return false, fmt.Errorf("expected %T, got %T", vv, v)
 		}
 	}
+	if d.values == nil {
+		d.values = make(map[string]interface{})
+	}
 	d.values[id] = v
 	return ok, err
 }
